@@ -346,3 +346,59 @@ Proof.
       revert S. unfold st_seen. to_bits. auto.
     + unfold st_tag. rewrite S. reflexivity.
 Qed.
+
+(* ---- tearing the channel request down (Session.close and the other call sites) ------------- *)
+Lemma teardown_mask_bits m :
+  Z.land m teardown_mask = teardown_mask -> Z.testbit m 8 = true /\ Z.testbit m 9 = true /\ Z.testbit m 10 = true.
+Proof.
+  intros H.
+  assert (forall i, Z.testbit teardown_mask i = true -> Z.testbit m i = true) as B.
+  { intros i T. rewrite <- H, Z.land_spec in T. apply andb_prop in T. tauto. }
+  repeat split; apply B; reflexivity.
+Qed.
+
+(* clearing (at least) ChannelValue, ChannelUpdated and Channel in one or several Unset calls leaves
+   no request and no notice; and when a channel is started later (the peer sets Channel) the first
+   ChannelCanStop finds no stale notice: it answers "no stop" and writes nothing *)
+Lemma no_stale_notice_after_teardown m w :
+  Z.land m teardown_mask = teardown_mask ->
+  let w1 := st_unset w m in
+  st_channel w1 = false /\ st_channel_value w1 = false /\ st_channel_updated w1 = false /\
+  (forall s, Z.testbit s 10 = false -> let w2 := st_set (st_set w1 s) stateChannel in
+             st_closing w2 = false -> st_channel_can_stop w2 = (false, w2)).
+Proof.
+  intros H w1. destruct (teardown_mask_bits m H) as (B8 & B9 & B10).
+  assert (st_channel w1 = false) as C by (unfold st_channel, w1; to_bits; rewrite unset_spec, B8; apply andb_false_r).
+  assert (st_channel_value w1 = false) as V by (unfold st_channel_value, w1; to_bits; rewrite unset_spec, B9; apply andb_false_r).
+  assert (st_channel_updated w1 = false) as U by (unfold st_channel_updated, w1; to_bits; rewrite unset_spec, B10; apply andb_false_r).
+  repeat split; try assumption.
+  intros s Hs w2 Hcl. unfold st_channel_can_stop. rewrite Hcl.
+  assert (st_channel w2 = true) as C2.
+  { unfold st_channel, w2. to_bits. change stateChannel with (2 ^ 8). rewrite set_bit_spec by lia. apply orb_true_r. }
+  assert (st_channel_updated w2 = false) as U2.
+  { unfold st_channel_updated, w2. to_bits. change stateChannel with (2 ^ 8). rewrite set_bit_spec, set_spec by lia.
+    unfold st_channel_updated in U. revert U. to_bits. intros ->. rewrite Hs. reflexivity. }
+  rewrite C2, U2. reflexivity.
+Qed.
+
+Lemma teardown_is_one_unset w : st_teardown w = st_unset w teardown_mask.
+Proof.
+  apply Z.bits_inj'. intros i Hi. unfold st_teardown. rewrite !unset_spec.
+  change stateChannelValue with (2 ^ 9). change stateChannelUpdated with (2 ^ 10). change stateChannel with (2 ^ 8).
+  change teardown_mask with (Z.lor (2 ^ 9) (Z.lor (2 ^ 10) (2 ^ 8))). rewrite !Z.lor_spec, !tb_pow2 by lia.
+  destruct (Z.testbit w i), (i =? 9), (i =? 10), (i =? 8); reflexivity.
+Qed.
+
+(* Session.close, either branch: the request, its notice and the channel mode are gone *)
+Lemma close_drops_request server w :
+  st_closing w = false ->
+  let w' := st_close server w in
+  st_channel w' = false /\ st_channel_value w' = false /\ st_channel_updated w' = false.
+Proof.
+  intros Hc. unfold st_close. rewrite Hc.
+  destruct (no_stale_notice_after_teardown teardown_mask w eq_refl) as (C & V & U & _).
+  rewrite <- teardown_is_one_unset in C, V, U.
+  destruct (server && negb (st_shutdown_wait w)); cbv zeta; [auto|].
+  unfold st_channel, st_channel_value, st_channel_updated in *. revert C V U. to_bits.
+  change stateClosing with (2 ^ 3). rewrite !set_bit_spec by lia. intros -> -> ->. repeat split.
+Qed.
